@@ -19,6 +19,8 @@ require (
 	github.com/iotaledger/hive.go/web v0.0.0
 )
 
+require github.com/kr/text v0.2.0 // indirect
+
 replace (
 	github.com/iotaledger/hive.go/ads => /repo/ads
 	github.com/iotaledger/hive.go/app => /repo/app
